@@ -106,7 +106,8 @@ Proof.
       { intros x0 Hx0. apply in_app_or in Hx0 as [Hx0|[Hx0|[]]]; [right; exact Hx0|injection Hx0 as ->; left; reflexivity]. }
       split; [|split; [|split; [|split]]].
       * apply (bounded_add_edge w2 c nc cs); [exact B2|exact Hc2|unfold w2; cbn [wset w_next]; lia|exact Hin3].
-      * apply (typed_add_edge T w2 c nc cs (set_parent ncs (PElem c))); [exact T2|exact Hc2|exact Hcs2| |exact Hin3].
+      * apply (typed_add_edge T w2 c nc cs); [exact T2|exact Hc2| |exact Hin3].
+        intros ncs2 Hncs2. rewrite Hcs2 in Hncs2. injection Hncs2 as <-.
         cbn [set_parent n_name n_type]. rewrite Tnc, Nncs, Tncs.
         exact (T0 src n s n0 Hsrc (Hl s (or_introl eq_refl)) Hsn0).
       * apply ext'_wset; [|lia]. apply ext'_wset; [|lia]. eapply ext'_trans; eauto.
